@@ -272,7 +272,7 @@ func c04Run(b *core.B) {
 	// random well-formed programs with leaves from K
 	nRand := 20000
 	if b.Tier == core.Thorough {
-		nRand = 1000000
+		nRand = 4000000
 	}
 	r := b.Rng(9)
 	for i := 0; i < nRand/b.NBatches; i++ {
